@@ -92,25 +92,18 @@ Definition sym_packed (rows : list (list Z)) (n : nat) : list Z :=
 
 Definition ZERO : Z := 0.   (* bit pattern of +0.0 *)
 
-(* one entry line of a sparse file applied to the map; None: outside the model (uninitialised index) *)
-Definition map_touch (es : list (Z * Z * Z)) (k : Z * Z) : list (Z * Z * Z) :=
-  if existsb (fun e => key_eqb (fst e) k) es then es else map_set es k ZERO.
-
+(* the entry lines of a sparse file (repaired reader): empty lines are skipped, a line must deliver
+   `size_t i, size_t j, double v` or the file is refused (BadData); m(i,j) asserts the bounds *)
 Fixpoint read_sparse_lines (ls : list line) (nl nc : Z) (acc : list (Z * Z * Z)) : res (list (Z * Z * Z)) :=
   match ls with
   | [] => Ok acc
   | l :: t =>
-      match l_i l with
-      | None => Err EUnmodelled
-      | Some i =>
-          let j := match l_j l with Some j => j | None => 0 end in
-          if (i <? nl) && (j <? nc) then
-            match l_j l with
-            | None => read_sparse_lines t nl nc (map_touch acc (i, j))
-            | Some _ => read_sparse_lines t nl nc (map_set acc (i, j) (match l_v l with Some v => v | None => ZERO end))
-            end
-          else Err EAssert
-      end
+      if l_empty l then read_sparse_lines t nl nc acc
+      else match l_i l, l_j l, l_v l with
+           | Some i, Some j, Some v =>
+               if (i <? nl) && (j <? nc) then read_sparse_lines t nl nc (map_set acc (i, j) v) else Err EAssert
+           | _, _, _ => Err EData
+           end
   end.
 
 Definition txt_decode (k : kind) (ls : list line) : res obj :=
